@@ -376,7 +376,14 @@ def shrink(table, refs, steps, at, owner):
 
 
 def history_probe(ctx, fails, table, refs, component, steps, correspond=True):
+    seen = [0]
+
     def on_bad(kind, at, owner, expected, actual):
+        seen[0] += 1
+        if seen[0] > 6:
+            # one defect usually spoils every later step: the first few are reported, the rest counted
+            ctx.count(f"suppressed-failure:{kind}")
+            return
         short = shrink(table, refs, steps, at, owner)
         code = steps[owner][1] if steps[owner][0] != "overwrite" else None
         if kind == "held-result-changed":
